@@ -285,5 +285,29 @@ expression whose spines have operators at their heads); needed when a source of 
 passed as an operation, since internal nodes attached to the argument's node are fed by the new one -/
 def SrcNoInt (g : GState) : Prop := ∀ p ∈ g.internals, ∀ s ∈ g.srcNodes, p.1 ≠ s.2
 
-end Tfv
+/-! ## operations and sources of function type passed as arguments, any depth -/
 
+/-- An expression in which operations may be passed as arguments at any depth, and in which a passed
+operation may also be a *source* of function type: every spine has an operator at its head; an
+argument is a source (of any type, function types included, the same source as often and wherever one
+likes) or again such a spine. So an argument is a data expression, an operator-headed passed
+operation, or a source of function type (`hofS_args`). (No `.shared` nodes, no source at the head of
+a spine with arguments.) -/
+inductive HofS : TExpr → Prop
+  | src (id : Nat) (l : Option String) (ty : Term) : HofS (.src id l ty)
+  | spine (e : TExpr) (name : String) (ty : Term) :
+      headOf e = .op name ty → (∀ a ∈ argsOf e, HofS a) → HofS e
+
+/-- executable check of `HofS` (`hofS e = true ↔ HofS e`) -/
+def hofS : TExpr → Bool
+  | .src _ _ _ => true
+  | .op _ _ => true
+  | .app f x _ => (match headOf f with | .op _ _ => true | _ => false) && hofS f && hofS x
+  | .shared _ _ => false
+
+/-- the arguments of the spine `e` as the receiving step sees them in the layout `flowHO next memo e cur`: per
+argument, left to right, its node and (function type) the internal node in front of it -/
+def spineArgInfos (next : Nat) (memo : List (Nat × Nat)) (e : TExpr) : List ArgInfo :=
+  argInfos ((argsOf e).foldl hoArgStep { next := next, memo := memo, rs := [] }).rs
+
+end Tfv
